@@ -277,6 +277,8 @@ def o_padscale(case, T):
         if exp and (exp[0] == 0 and want[0] - pad < 0 or exp[-1] == n - 1 and want[-1] + pad > n - 1):
             T.nontrivial()
             T.cls("pad_clamped")
+        if isinstance(s, slice) and isinstance(s.stop, int) and s.stop > n:
+            T.cls("pad_region_past_axis_end")
     else:
         require(0 <= p.start and p.stop <= n, "roi_pad of empty region leaves array: %r", p)
         if isinstance(s.start, int) and s.start == s.stop and 0 <= s.start <= n:
@@ -314,7 +316,7 @@ def o_padscale(case, T):
 def e_padscale(tier):
     nmax = 5 if tier == "quick" else 7
     for n in range(0, nmax + 1):
-        for s in _all_slices(n, extra=0):
+        for s in _all_slices(n, extra=2):  # bounds past the end of the axis are legal numpy (X[3:n+2] == X[3:])
             for pad in range(0, 5):
                 for k in range(1, 6):
                     if tier == "quick" and (pad + k) % 2:
